@@ -199,32 +199,74 @@ class ModuleNameToBeartypeConf(dict[str, 'BeartypeConf']):
             ) from exception
 
 # ....................{ CACHERS                            }....................
+def make_optimization_marker_beartype(conf: BeartypeConf) -> str:
+    '''
+    Beartype-specific optimization marker uniquifying the filename of the
+    bytecode file of a module hooked under the passed beartype configuration.
+
+    This marker suffixes the configuration-agnostic
+    :data:`.OPTIMIZATION_MARKER_BEARTYPE` by *all* configuration options that
+    the abstract syntax tree (AST) transformation bakes into bytecode: whether
+    PEP 526-compliant annotated variable assignments are type-checked, where the
+    :func:`beartype.beartype` decorator is injected into decorator chains of
+    callables and types, and whether that decorator is passed a ``conf``
+    parameter. All other options are looked up at module execution time from
+    the configuration currently associated with that module and thus need *not*
+    uniquify bytecode. Since :func:`importlib.util.cache_from_source` requires
+    markers to be alphanumeric, underscores are stripped from enumeration member
+    names.
+
+    Bytecode cached under one configuration is thus *never* reused under
+    another configuration transforming the same module differently.
+    '''
+
+    # Avoid circular import dependencies.
+    from beartype._conf.confcommon import BEARTYPE_CONF_DEFAULT
+    from beartype._data.claw.dataclawmagic import OPTIMIZATION_MARKER_BEARTYPE
+
+    return (
+        f'{OPTIMIZATION_MARKER_BEARTYPE}'
+        f'p{int(conf.claw_is_pep526)}'
+        f'f{conf.claw_decor_place_func.name.replace("_", "")}'
+        f't{conf.claw_decor_place_type.name.replace("_", "")}'
+        f'd{int(conf == BEARTYPE_CONF_DEFAULT)}'
+    )
+
+
 #FIXME: Unit test us up, please.
-def cache_from_source_beartype(*args, **kwargs) -> str:
+def make_cache_from_source_beartype(conf: BeartypeConf):
     '''
     Beartype-specific variant of the
-    :func:`importlib._bootstrap_external.cache_from_source` function applying a
-    beartype-specific optimization marker to that function.
+    :func:`importlib._bootstrap_external.cache_from_source` function applying
+    the beartype-specific optimization marker of the passed beartype
+    configuration to that function.
 
     This, in turn, ensures that submodules residing in packages registered by a
     prior call to the :func:`beartype_package` function are
     compiled to files with the filetype
-    ``".pyc{optimization}_{OPTIMIZATION_MARKER_BEARTYPE}"``, where
-    ``{optimization}`` is the original ``optimization`` parameter passed to this
-    function call.
+    ``".pyc{optimization}_{marker}"``, where ``{optimization}`` is the original
+    ``optimization`` parameter passed to that function call and ``{marker}`` is
+    the string returned by :func:`.make_optimization_marker_beartype`.
     '''
 
-    # Avoid circular import dependencies.
-    from beartype._data.claw.dataclawmagic import OPTIMIZATION_MARKER_BEARTYPE
+    # Optimization marker unique to the AST transformation configured by this
+    # configuration.
+    optimization_marker_beartype = make_optimization_marker_beartype(conf)
 
-    # Original optimization parameter passed to this function call if any *OR*
-    # the empty string otherwise.
-    optimization_marker_nonbeartype = kwargs.get('optimization', '')
+    def cache_from_source_beartype(*args, **kwargs) -> str:
 
-    # New optimization parameter applied by this monkey-patch of that function,
-    # uniquifying that parameter with a beartype-specific suffix.
-    kwargs['optimization'] = (
-        f'{optimization_marker_nonbeartype}{OPTIMIZATION_MARKER_BEARTYPE}')
+        # Original optimization parameter passed to this function call if any
+        # *OR* the empty string otherwise.
+        optimization_marker_nonbeartype = kwargs.get('optimization', '')
 
-    # Defer to the implementation of the original cache_from_source() function.
-    return cache_from_source_original(*args, **kwargs)
+        # New optimization parameter applied by this monkey-patch of that
+        # function, uniquifying that parameter with a beartype-specific suffix.
+        kwargs['optimization'] = (
+            f'{optimization_marker_nonbeartype}{optimization_marker_beartype}')
+
+        # Defer to the implementation of the original cache_from_source()
+        # function.
+        return cache_from_source_original(*args, **kwargs)
+
+    # Return this closure.
+    return cache_from_source_beartype
